@@ -63,9 +63,8 @@ def create_lattice_elements(cell_centers: list, **kwargs) -> tuple:
                 temp_big_edge = []
                 x_coordinate = np.around(np.linspace(round(tessellation.vertices[c[ii]][0], 3),
                                                     round(tessellation.vertices[c[ii + 1]][0], 3), 2), 3)
-                y_coordinate = np.around(line_eq(tessellation.vertices[c[ii]],
-                                                    tessellation.vertices[c[ii + 1]],
-                                                    x_coordinate), 3)
+                y_coordinate = np.around(np.linspace(round(tessellation.vertices[c[ii]][1], 3),
+                                                    round(tessellation.vertices[c[ii + 1]][1], 3), 2), 3)
 
                 new_edge_vertices = list(zip(x_coordinate, y_coordinate))
                 # add new edges to the global list
